@@ -364,12 +364,58 @@ def run_own(ctx, proof):
                              correspondence_name="server.hasOwnASLoop (hook VerifHasOwnASLoop) vs Rewrite.OwnAs.has_own_as_loop"), cases
 
 
+# ---------------------------------------------------------------- LOCAL_PREF towards eBGP peers when the export policy sets it (oracle only)
+def gen_explp(rng):
+    lp = rng.choice([50, 300, 4294967295])
+    return {"lp": lp, "med": rng.choice([None, 7]), "stored_lp": rng.choice([None, 200]), "pfx": rng.sample(OWN_PFX, rng.choice([1, 2])), "from_ibgp": rng.random() < 0.4}
+
+
+def explp_line(c):
+    from checks import c15
+    acts = [("lp", c["lp"])] + ([("med", 1, c["med"])] if c["med"] is not None else [])
+    acts.sort(key=lambda a: {"med": 1, "lp": 3}[a[0]])
+    pol = c15.pol_sx({"default": True, "policies": [[([], acts, None)]]})
+    src = "c" if c["from_ibgp"] else "a"
+    steps = ["(policy export %s)" % pol, "(up a)", "(up b)", "(up c)"]
+    for pf in c["pfx"]:
+        path = "" if c["from_ibgp"] else "65001 65020"
+        steps.append("(upd %s (a %s 0 (%s) - %s 0 () - ()))" % (src, pf, path, "100" if c["from_ibgp"] and c["stored_lp"] is None else (str(c["stored_lp"]) if c["stored_lp"] is not None and c["from_ibgp"] else "-")))
+    steps.append("(obs)")
+    return "(sim (global 65000 1.1.1.1 sync) (peers (a 10.0.0.1 65001) (b 10.0.0.2 65002) (c 10.0.0.3 65000)) (steps %s))" % " ".join(steps)
+
+
+def explp_oracle(c, out):
+    r = simlib.split_output(out)
+    if r is None or not r[0]:
+        return ("harness-error", "the scenario did not complete: " + out[:300])
+    o = r[0][-1]
+    for pf in c["pfx"]:
+        vb = o["peers"]["b"].get("view", {})
+        key = [k for k in vb if k.split("#")[0] == pf]
+        if not key:
+            return ("missing-route", "the eBGP peer b lacks %s" % pf)
+        parts = vb[key[0]].split(";")
+        if any(x.startswith("lp") for x in parts):
+            return ("local-pref-sent-to-ebgp-peer", "the eBGP peer b was sent %s with %s (the export policy sets local-pref %d; to eBGP peers LOCAL_PREF is removed)" % (pf, vb[key[0]], c["lp"]))
+        if not c["from_ibgp"]:
+            vc = o["peers"]["c"].get("view", {})
+            kc = [k for k in vc if k.split("#")[0] == pf]
+            if not kc or ("lp%d" % c["lp"]) not in vc[kc[0]].split(";"):
+                return ("export-policy-local-pref-not-applied-to-ibgp", "the iBGP peer c holds %s; the export policy sets local-pref %d" % (vc.get(kc[0]) if kc else None, c["lp"]))
+    return None
+
+
+def run_explp(ctx, proof):
+    cases = [gen_explp(ctx.rng) for _ in range(ctx.scale(150, 1500))]
+    return spkcommon.oracle_only(ctx, proof, cases, explp_line, explp_oracle, "LOCAL_PREF set by the export policy: removed towards eBGP peers (postFilterpath runs after the policy), kept towards iBGP peers")
+
+
 def run(ctx):
     return spkcommon.run(ctx, "C09", oracle, "UpdatePathAttrs/filterpath/filterPathFromSourcePeer/handleUpdate vs Speaker.Model export/filter0/rejected",
                          ["AS_PATH is one AS_SEQUENCE of at most a few members; confederation, remove-private-as, replace-peer-as, "
                           "allow-own-as > 0, route-server clients and unknown non-transitive attributes are outside the model",
                           "cluster-id = router-id (the default)"],
-                         fields=("view", "rib", "adjin"), extra=[run_x, run_own, run_set, run_allow])
+                         fields=("view", "rib", "adjin"), extra=[run_x, run_own, run_set, run_allow, run_explp])
 
 
 def replay(ctx, path):
